@@ -18,6 +18,7 @@ TRUSTED_BASE = [
     'Lean 4.33.0 kernel (leanchecker re-check in the thorough tier)',
     'axioms: propext, Classical.choice, Quot.sound only (audited with #print axioms on every run); no native_decide, bv_decide, sorry, user axioms',
     'hand-written Lean model of the code (lean/PySpikeVerif/Model) tied to /repo by the correspondence check of this run (differential testing; bounded by the generators)',
+    'second tie for the pure-Python backend kernels: Lean text generated from the source by harness/py2lean.py on every run (coverage.generated_model), proved equal to the hand-written model (Properties/GenRefine.lean); trusted there: the translator (a shallow embedding of the Python subset used; validated on every run against the real routines), not the hand-written model',
     'real-number (Rat) abstraction of IEEE doubles: branch decisions are exact on the dyadic inputs generated, values compared to 1e-11 relative',
     'numpy primitives (searchsorted, unique, sort, sum, histogram, linspace, loadtxt) modelled by their documented meaning',
     'non-mutation, absence of exceptions: monitored on every call the harness makes, not proved',
@@ -168,6 +169,19 @@ def check(prop, tier, seed):
                 'theorems': [], 'build_ok': True, 'skipped': True}
     else:
         lean = lean_check(prop, tier)
+    # ---- 1b. the generated-model tie: regenerate Gen/Backend.lean from the current source, compare,
+    #          re-check the refinement proofs when it changed, validate the translator against the code
+    gen_res = None
+    if os.environ.get('VERIF_SKIP_GEN') != '1':
+        from . import gentie
+        try:
+            gen_res = gentie.gen_tie(prop, tier, random.Random(seed * 31 + 7))
+        except Exception as ex:
+            gen_res = {'status': 'error', 'reason': repr(ex)[:300]}
+        if gen_res.get('status') != 'identical':
+            notes.append('generated-model tie: %s — %s' % (gen_res.get('status'), gen_res.get('reason') or gen_res.get('note')))
+        if gen_res.get('status_validation'):
+            notes.append('generated-model tie: ' + gen_res['status_validation'])
     # ---- 2. correspondence
     suite_res = []
     evaluated = 0
@@ -309,6 +323,7 @@ def check(prop, tier, seed):
             'suites': suite_res, 'ops': stats.counts, 'input_tags': stats.tags,
             'oracle_scenarios': oracle_runs, 'known_finding_hits': known_hits,
             'disagreements': disagreements[:5], 'exhaustive': False,
+            'generated_model': gen_res,
         },
         'assumptions': TRUSTED_BASE + PROP_TRUST.get(prop, []) + notes,
         'wall_s': round(wall, 2),
